@@ -36,7 +36,7 @@ enum Speed {
     Fast,
     #[value(aliases = ["s", "lazy"], alias = "crawl", alias = "idle")]
     Slow,
-    #[value(name = "mid", aliases = ["m"], aliases = ["medium", "half"])]
+    #[value(name = "mid", aliases = ["m"], aliases = ["medium", "half", "MID", "Half", "M"])]
     Middle,
 }
 
@@ -78,6 +78,10 @@ const SPEED_DECLARED: &[(&str, Speed)] = &[
     ("m", Speed::Middle),
     ("medium", Speed::Middle),
     ("half", Speed::Middle),
+    // spellings that differ from an earlier one only by case are spellings of their own
+    ("MID", Speed::Middle),
+    ("Half", Speed::Middle),
+    ("M", Speed::Middle),
 ];
 const MODE_DECLARED: &[(&str, Mode)] = &[("fast", Mode::Fast), ("slow-mode", Mode::Slow), ("quick", Mode::Slow)];
 
